@@ -301,7 +301,7 @@ func (s *sys) alphabet(thorough bool) []op {
 		if !s.live("P:", p) {
 			continue
 		}
-		out = append(out, op{Kind: "updatePipeline", A: p, Arg: "c"}, op{Kind: "updatePipeline", A: p, Arg: ""}, op{Kind: "updatePipeline", A: p, Arg: "a"},
+		out = append(out, op{Kind: "updatePipeline", A: p, Arg: "c"}, op{Kind: "updatePipeline", A: p, Arg: ""}, op{Kind: "updatePipeline", A: p, Arg: "a"}, op{Kind: "updatePipeline", A: p, Arg: "b"},
 			op{Kind: "deletePipeline", A: p}, op{Kind: "startPipeline", A: p}, op{Kind: "stopPipeline", A: p})
 		if thorough {
 			out = append(out, op{Kind: "updateDLQ", A: p, Arg: "x"})
@@ -516,9 +516,9 @@ func TestVerifC14(t *testing.T) {
 		}
 	}()
 	thorough := verifkit.Thorough()
-	maxDepth := 3
+	maxDepth := 4
 	if thorough {
-		maxDepth = 4
+		maxDepth = 5
 	}
 	if v := os.Getenv("VERIF_DEPTH"); v != "" {
 		fmt.Sscanf(v, "%d", &maxDepth)
@@ -527,13 +527,21 @@ func TestVerifC14(t *testing.T) {
 	deadline := verifkit.Deadline(150*time.Second, 40*time.Minute)
 	seen := map[string]bool{}
 	root, _ := build(nil)
-	seen[root.dumpMemory(false)] = true
-	frontier := [][]op{nil}
+	seen[root.dumpMemory(false)+"|after-a-failed-call="] = true
+	// Deduplication key = canonical visible state + whether the history contains a call that FAILED: services keep
+	// state that no API shows (e.g. the set of names in use), so a state reached through a rejected call is explored
+	// separately from the same visible state reached without one (otherwise the merge could hide different futures).
+	type entry struct {
+		hist   []op
+		failed string // the last call of the history that failed ("" = none)
+	}
+	frontier := []entry{{}}
 	transitions := 0
 	completedDepth := 0
 	for depth := 1; depth <= maxDepth && len(frontier) > 0; depth++ {
-		var next [][]op
-		for hi, hist := range frontier {
+		var next []entry
+		for hi, fe := range frontier {
+			hist := fe.hist
 			if time.Now().After(deadline) {
 				rep.Cap(fmt.Sprintf("wall-clock budget reached at BFS depth %d (depth %d completed)", depth, completedDepth))
 				frontier = nil
@@ -552,17 +560,46 @@ func TestVerifC14(t *testing.T) {
 				beforeKeys := s.storeKeys()
 				err, nops, pan := s.apply(o)
 				h2 := append(append([]op{}, hist...), o)
+				cleanT := true
 				if mine {
 					transitions++
 					rep.Eval()
-					checkState(rep, s, h2, o, err, pan, before, beforeKeys, beforeProt)
+					cleanT = checkState(rep, s, h2, o, err, pan, before, beforeKeys, beforeProt)
+					// differential oracle: the same call on a server that was RESTARTED in the pre-state (fresh services
+					// initialised from the store) must behave the same - whatever hidden in-memory state earlier (failed)
+					// calls left behind must not matter
+					if live, _ := build(hist); live != nil {
+						if r, rerr := newSys(live.db.Content()); rerr == nil {
+							r.ids = append([]string{}, live.ids...)
+							// a restarted server resumes the pipelines that were running (lifecycle Init)
+							for id, p := range r.pl.List(context.Background()) {
+								if p.GetStatus() == pipeline.StatusSystemStopped {
+									_ = r.pl.UpdateStatus(context.Background(), id, pipeline.StatusRunning, "")
+								}
+							}
+							e2, _, _ := r.apply(o)
+							if (e2 != nil) != (err != nil) {
+								rep.AddViolation(verifkit.Violation{Key: siteOf(o, "live-server-differs-from-restarted-server"),
+									Text:   fmt.Sprintf("%s returns err=%v on the live server but err=%v on a server restarted in the same stored state\nhistory: %s", o, firstLine(err), firstLine(e2), histString(h2)),
+									Replay: map[string]any{"history": h2}})
+							} else if a, b := strings.ReplaceAll(s.dumpMemory(false), "status=SystemStopped", "status=Running"), strings.ReplaceAll(r.dumpMemory(false), "status=SystemStopped", "status=Running"); a != b {
+								rep.AddViolation(verifkit.Violation{Key: siteOf(o, "live-server-differs-from-restarted-server"),
+									Text:   fmt.Sprintf("%s leads to different states on the live server and on a server restarted in the same stored state:\n--- live\n%s\n--- restarted\n%s\nhistory: %s", o, a, b, histString(h2)),
+									Replay: map[string]any{"history": h2}})
+							}
+						}
+					}
 				}
-				key := s.dumpMemory(false)
-				if !seen[key] {
+				failedNow := fe.failed
+				if err != nil {
+					failedNow = o.String()
+				}
+				key := s.dumpMemory(false) + "|after-a-failed-call=" + failedNow
+				if !seen[key] && cleanT {
 					seen[key] = true
 					rep.State(key)
 					if depth < maxDepth {
-						next = append(next, h2)
+						next = append(next, entry{h2, failedNow})
 					}
 					if len(seen)%37 == 5 {
 						rep.Sample(map[string]any{"history": histString(h2), "state": strings.Split(key, "\n")})
@@ -587,15 +624,15 @@ func TestVerifC14(t *testing.T) {
 					rep.Eval()
 					fh := append(append([]op{}, hist...), fo)
 					rep.Nontrivial(histString(fh))
-					checkState(rep, fs, fh, fo, ferr, fpan, fbefore, fkeys, fprot)
+					fclean := checkState(rep, fs, fh, fo, ferr, fpan, fbefore, fkeys, fprot)
 					rep.Outcome(fmt.Sprintf("%s fail@%d err=%v", fo.Kind, k, ferr != nil))
 					// a state corrupted by a failed call is a start state too (differential: chain one more op from it)
-					fkey := fs.dumpMemory(false)
-					if !seen[fkey] {
+					fkey := fs.dumpMemory(false) + "|after-a-failed-call=" + fo.String()
+					if !seen[fkey] && fclean {
 						seen[fkey] = true
 						rep.State(fkey)
 						if depth < maxDepth {
-							next = append(next, fh)
+							next = append(next, entry{fh, fo.String()})
 						}
 					}
 				}
@@ -618,14 +655,24 @@ func TestVerifC14(t *testing.T) {
 
 var traces int
 
-func checkState(rep *verifkit.Report, s *sys, hist []op, o op, err error, pan string, before, beforeKeys, beforeProt string) {
+// checkState evaluates the oracles on one transition; it returns false when the transition violated one (the state
+// it leads to is then not used as a start state: every successor would only repeat the same finding).
+func checkState(rep *verifkit.Report, s *sys, hist []op, o op, err error, pan string, before, beforeKeys, beforeProt string) (clean bool) {
 	rep.Trace()
+	clean = true
 	bad := func(what, text string) {
+		clean = false
 		rep.AddViolation(verifkit.Violation{Key: siteOf(o, what), Text: text + "\nhistory: " + histString(hist), Replay: map[string]any{"history": hist}})
 	}
 	if pan != "" {
+		if (o.Kind == "deleteConnector" || o.Kind == "deleteProcessor") && strings.HasPrefix(pan, "rollback failed") {
+			// same root cause as rollback-recreates-entity: the rollback re-creates the entity through Create, whose
+			// validation can refuse what Update accepted (e.g. an empty connector name); rollback.MustExecute then panics
+			bad("rollback-recreates-entity", "the API call panicked while rolling back a failed delete by re-creating the entity: "+pan)
+			return false
+		}
 		bad("panic", "the API call panicked: "+pan)
-		return
+		return false
 	}
 	after := s.dumpMemory(true)
 	// A failed delete is rolled back by CREATING the entity again (orchestrator rollback): it comes back with a new
@@ -634,8 +681,8 @@ func checkState(rep *verifkit.Report, s *sys, hist []op, o op, err error, pan st
 		return (o.Kind == "deleteConnector" || o.Kind == "deleteProcessor") && a != b && stripVolatile(a) == stripVolatile(b)
 	}
 	if err != nil && recreated(before, after) {
-		bad("rollback-recreates-entity", fmt.Sprintf("%s failed (%v) and was rolled back by creating the entity anew: creation time / state / last active config are lost in memory while the store keeps the original:\n--- before\n%s\n--- after\n%s", o, firstLine(err), before, after))
-		return
+		bad("rollback-recreates-entity", fmt.Sprintf("%s failed (%v) and was rolled back by creating the entity anew: creation time / state / last active config / its place in the parent's list are lost in memory while the store keeps the original:\n--- before\n%s\n--- after\n%s", o, firstLine(err), before, after))
+		return false
 	}
 	if err != nil && after != before {
 		bad("failed-call-changed-state", fmt.Sprintf("%s returned an error (%v) but the in-memory state changed:\n--- before\n%s\n--- after\n%s", o, firstLine(err), before, after))
@@ -662,11 +709,23 @@ func checkState(rep *verifkit.Report, s *sys, hist []op, o op, err error, pan st
 			}
 		}
 	}
+	return clean
 }
 
 var volatileRe = regexp.MustCompile(`( created=\S*| state=\S*| last=\{[^}]*\}[^ ]*)`)
+var listRe = regexp.MustCompile(`(conns|procs)=\[([^\]]*)\]`)
 
-func stripVolatile(d string) string { return volatileRe.ReplaceAllString(d, "") }
+// stripVolatile drops what a delete-rollback-by-recreation loses: creation time, state, last active config, and the
+// POSITION of the entity in its parent's reference list (it is appended at the end again).
+func stripVolatile(d string) string {
+	d = volatileRe.ReplaceAllString(d, "")
+	return listRe.ReplaceAllStringFunc(d, func(m string) string {
+		sub := listRe.FindStringSubmatch(m)
+		ids := strings.Fields(sub[2])
+		sort.Strings(ids)
+		return sub[1] + "=[" + strings.Join(ids, " ") + "]"
+	})
+}
 
 func firstLine(err error) string {
 	if err == nil {
